@@ -32,7 +32,27 @@ fn reply_fp(r: &RespVec) -> Value {
 }
 
 fn gen_value(rng: &mut StdRng, big: bool) -> Vec<u8> {
-    match rng.gen_range(0..8) {
+    match rng.gen_range(0..12) {
+        // values that look like what the compressor itself produces: the write and read paths must still be inverses
+        8 => {
+            let payload: Vec<u8> = (0..rng.gen_range(1..400)).map(|i| b'a' + (i % 7) as u8).collect();
+            zstd::encode_all(&payload[..], 3).unwrap_or_else(|_| vec![0x28, 0xb5, 0x2f, 0xfd])
+        }
+        9 => {
+            let mut v = vec![0x28u8, 0xb5, 0x2f, 0xfd];
+            v.extend((0..rng.gen_range(0..40)).map(|_| rng.gen::<u8>()));
+            v
+        }
+        10 => {
+            let mut v = vec![0x1fu8, 0x8b, 0x08, 0x00];
+            v.extend((0..rng.gen_range(0..40)).map(|_| rng.gen::<u8>()));
+            v
+        }
+        11 => {
+            // a frame inside a frame
+            let inner = zstd::encode_all(&b"nested nested nested nested"[..], 1).unwrap_or_default();
+            zstd::encode_all(&inner[..], 1).unwrap_or_default()
+        }
         0 => vec![],
         1 => vec![rng.gen()],
         2 => b"\r\n".to_vec(),
